@@ -172,12 +172,6 @@ theorem cell_congr_on (k : Kernel) (l : List (Int × Int)) (hr : readsIn k l = t
 /-! ### NaN propagation through the remaining transcendental symbols (NV instance) -/
 section nv
 variable {K : Type} [Field K] [LinearOrder K] [IsStrictOrderedRing K] [Trig K]
-@[simp] theorem fl_atan2_none_l (b : NV K) : Fl.atan2 (none : NV K) b = none := by cases b <;> rfl
-@[simp] theorem fl_atan2_none_r (a : NV K) : Fl.atan2 a (none : NV K) = none := by cases a <;> rfl
-@[simp] theorem fl_sin_none : Fl.sin (none : NV K) = none := rfl
-@[simp] theorem fl_cos_none : Fl.cos (none : NV K) = none := rfl
-@[simp] theorem fl_asin_none : Fl.asin (none : NV K) = none := rfl
-@[simp] theorem fl_abs_none : Fl.abs (none : NV K) = none := rfl
 
 /-- a window of finite values -/
 def finW (z : Int → Int → K) : Int → Int → NV K := fun dy dx => some (z dy dx)
